@@ -29,6 +29,10 @@ def run(chk, prog, tier):
     term_rule(chk, prog, res)
     roles = PL.Roles(prog)
     strb_rule(chk, prog, res)
+    # stores into the code buffer are memory accesses too: every encoder / padding call is gated by a passed room check (as in C07)
+    PL.gate_rule(chk, prog, roles)
+    from checks import C07
+    C07.room_predicate(chk, prog, roles)
     # termination of the per-line loop: the scanner makes progress on every text, the driver advances by what was consumed
     SC.progress_rule(chk, prog, roles)
     SC.driver_advance_rule(chk, prog, roles)
